@@ -345,3 +345,281 @@ def jobs(tier):
                     continue           # three floating-point multiplications in one query do not finish in z3 (stated bound: groups of <= 2 for prod of floats)
                 js.append((h_reducer, (red, dt, parents, outlength), 900))
     return js
+
+
+# ------------------------------------------------------------------------------------------------ NumpyArray::reduce_next: the leaf of every reduction
+def _group_obligations(red, dtype, xs, parents, outlength, res, pos_adjust=None):
+    """violation conditions saying that res[g] is the reducer applied to group g (shared with h_reducer); pos_adjust(i) maps a member position
+    to what a position reducer must report for it"""
+    code, bits, kind = DTYPES[dtype]
+    obits, okind = out_type(red, dtype)
+    obls = []
+    for g in range(outlength):
+        mem = [i for i, p in enumerate(parents) if p == g]
+        r = res[g]
+        tag = 'group %d (%d members)' % (g, len(mem))
+        if red == 'count':
+            obls.append((tag + ': the number of members', r != len(mem)))
+        elif red == 'count_nonzero':
+            c = BV(0)
+            for i in mem:
+                c = c + z3.If(_nonzero(xs[i], kind), BV(1), BV(0))
+            obls.append((tag + ': the number of non-zero members', r != c))
+        elif red in ('any', 'all'):
+            t = (z3.Or if red == 'any' else z3.And)([_nonzero(xs[i], kind) for i in mem] + [z3.BoolVal(red == 'all')])
+            obls.append((tag + ': %s member is non-zero' % ('some' if red == 'any' else 'every'), r != z3.If(t, z3.BitVecVal(1, 8), z3.BitVecVal(0, 8))))
+        elif red in ('sum', 'prod'):
+            if okind == 'f':
+                acc = z3.FPVal(0.0 if red == 'sum' else 1.0, _fsort(obits))
+                for i in mem:
+                    acc = (z3.fpAdd if red == 'sum' else z3.fpMul)(z3.RNE(), acc, xs[i])
+                obls.append((tag + ': the members combined in order from the identity', z3.Not(_same(r, acc, 'f'))))
+            else:
+                acc = z3.BitVecVal(0 if red == 'sum' else 1, 64)
+                for i in mem:
+                    e = _ext(xs[i], 's' if kind == 's' else 'u', 64)
+                    acc = (acc + e) if red == 'sum' else (acc * e)
+                obls.append((tag + ': the %s of the members in the 64-bit output type' % red, r != acc))
+        elif red in ('min', 'max'):
+            if kind == 'b':
+                t = (z3.Or if red == 'max' else z3.And)([xs[i] != 0 for i in mem] + [z3.BoolVal(red == 'min')])
+                obls.append((tag + ': %s of booleans' % red, r != z3.If(t, z3.BitVecVal(1, 8), z3.BitVecVal(0, 8))))
+            elif not mem:
+                obls.append((tag + ': an empty group gives the identity of the type', z3.Not(_same(r, _identity(red, bits, kind), kind))))
+            else:
+                beats = (lambda a, b: _less(a, b, kind)) if red == 'min' else (lambda a, b: _less(b, a, kind))
+                obls.append((tag + ': the result is one of the members', z3.Not(z3.Or([_same(r, xs[i], kind) for i in mem]))))
+                obls.append((tag + ': no member beats the result', z3.Or([beats(xs[i], r) for i in mem])))
+        else:
+            if not mem:
+                obls.append((tag + ': an empty group gives -1', r != BV(-1)))
+            else:
+                k2 = 'u' if kind == 'b' else kind
+                beats = (lambda a, b: _less(a, b, k2)) if red == 'argmin' else (lambda a, b: _less(b, a, k2))
+                ok = []
+                for i in mem:
+                    rep = BV(i) if pos_adjust is None else pos_adjust(i)
+                    ok.append(z3.And(r == rep, z3.And([z3.Not(beats(xs[j], xs[i])) for j in mem] + [beats(xs[i], xs[j]) for j in mem if j < i] + [z3.BoolVal(True)])))
+                obls.append((tag + ': the position (within its list) of the first member that no member beats', z3.Not(z3.Or(ok))))
+    return obls
+
+
+NPCODE = {('b', 8): 1, ('s', 8): 2, ('s', 16): 3, ('s', 32): 4, ('s', 64): 5, ('u', 8): 6, ('u', 16): 7, ('u', 32): 8, ('u', 64): 9, ('f', 32): 11, ('f', 64): 12}
+
+
+@guard
+def h_numpy_reduce(red, dtype, parents, outlength, mask, keepdims, shifted):
+    """NumpyArray::reduce_next on a one-dimensional contiguous array: the group-wise reduction of h_reducer, delivered as a NumpyArray of the
+    documented output type with one entry per group; position reducers report positions within the list (global position minus the list's start,
+    plus the shift of missing values skipped before it); with mask_identity an empty group is None and no other; keepdims wraps the answer in a
+    regular dimension of size 1"""
+    from . import mnode
+    from .mnode import build_numpy1d, NP_DTYPES
+    from .cpp01 import struct_of
+    from .mharness import module_of
+    cls = REDUCERS[red]
+    code, bits, kind = DTYPES[dtype]
+    n = len(parents)
+    nc = NodeCtx(['NA', 'RED', 'RA', 'BMA', 'KD', 'UTL', 'IDX', 'CNT', 'IDS'], [], unwind=max(16, 2 * n + 2 * outlength + 12),
+                 extra_stubs={'_ZN7awkward4util5quoteE*': nodeh.s_empty_string, '*4nameB5cxx11Ev': nodeh.s_empty_string, '_ZN7awkward4util15dtype_to_formatB5cxx11ENS0_5dtypeERKNSt7__cxx1112basic_stringIcSt11char_traitsIcESaIcEEE': nodeh.s_empty_string})
+    m = nc.m
+    this, xs, fo = build_numpy1d(nc, 'node', n, dtype)
+    for x in xs:
+        if kind == 'f':
+            m.assume(z3.Not(z3.fpIsNaN(x)))
+
+    def index64(name, vals=None, n_=None, sym=None):
+        if vals is not None:
+            arr = z3.K(z3.BitVecSort(64), BV(0))
+            for i, v in enumerate(vals):
+                arr = z3.Store(arr, BV(i), BV(v))
+            d = m.array(name + '_data', ('i', 64), max(1, len(vals)), const=True, arr=arr)
+            ln = len(vals)
+            terms = [BV(v) for v in vals]
+        else:
+            d = m.array(name + '_data', ('i', 64), max(1, n_), const=True)
+            a0 = z3.Array(name + '_data', z3.BitVecSort(64), z3.BitVecSort(64))
+            terms = [z3.Select(a0, BV(i)) for i in range(n_)]
+            ln = n_
+        cells = {}
+        nc.index_cells(cells, 0, d, BV(0), BV(ln))
+        return m.record(name, cells, const=True), terms
+    pidx, _ = index64('parentsidx', list(parents))
+    starts, sv = index64('starts', n_=outlength)
+    for v in sv:
+        m.assume(v >= -(2 ** 40), v <= 2 ** 40)
+    if shifted:
+        shifts, shv = index64('shifts', n_=n)
+        for v in shv:
+            m.assume(v >= 0, v <= 2 ** 40)
+    else:
+        shifts, shv = index64('shifts', [])
+    rc = {0: (nc.vptr_of('N7awkward%d%sE' % (len(cls), cls), 'RED'), 8)}
+    if red in ('min', 'max'):
+        rc.update({8: (z3.FPVal(0.0, z3.Float64()), 8), 16: (BV(0), 8), 24: (BV(0), 8), 32: (BV(0, 8), 1)})
+    reducer = m.record('reducer', rc, const=True)
+    m.record('ret', {})
+    cands = [f for mod_ in m.eng.mods for f in mod_.func_src if f.startswith('_ZNK7awkward10NumpyArray11reduce_nextE')]
+    out = m.call(cands[0], [Ptr('ret', 0), this, reducer, BV(1), starts, shifts, pidx, BV(outlength), z3.BitVecVal(1 if mask else 0, 1), z3.BitVecVal(1 if keepdims else 0, 1)])
+    obls = [('reduce_next does not raise', out.raised)]
+    obits, okind = out_type(red, dtype)
+
+    def obj(p, what):
+        cs = [(g, q) for g, q in nodeh.ptr_cases(p) if q.obj is not None]
+        if len(cs) != 1:
+            raise Unsupported('%s pointer has %d cases' % (what, len(cs)))
+        return out.mem.o[cs[0][1].obj], cs[0][1].off
+
+    def cls_of(o, base):
+        vp = o.cells.get(base)
+        v = [str(q.obj) for g, q in nodeh.ptr_cases(vp[0]) if q.obj is not None] if vp else []
+        return v[0] if v else ''
+    top, tb = obj(m.cell('ret', 0), 'result')
+    if keepdims:
+        if 'RegularArray' not in cls_of(top, tb):
+            obls.append(('keepdims wraps the answer in a regular dimension', z3.BoolVal(True)))
+            return mdischarge(m, 'NumpyArray<%s>::reduce_next %s' % (dtype, red), obls, [], replay=None)
+        rfo = nc.layout_of('RA', '_ZNK7awkward12RegularArray6lengthEv')[0]
+        obls.append(('the kept dimension has size 1', top.cells[tb + rfo[2]][0] != 1))
+        top, tb = obj(top.cells[tb + rfo[1]][0], 'content of the kept dimension')
+    if mask:
+        if 'ByteMaskedArray' not in cls_of(top, tb):
+            obls.append(('mask_identity delivers an option-type answer', z3.BoolVal(True)))
+            return mdischarge(m, 'NumpyArray<%s>::reduce_next %s' % (dtype, red), obls, [], replay=None)
+        bfo = nc.layout_of('BMA', '_ZNK7awkward15ByteMaskedArray6lengthEv')[0]
+        mterms, mlen = nc.index_terms(out.mem, Ptr(nodeh.ptr_cases(m.cell('ret', 0))[0][1].obj if False else [q for g, q in nodeh.ptr_cases(top.cells[tb][0])][0].obj, 0), 'mask') if False else (None, None)
+        # the mask Index8 sits inside the ByteMaskedArray object
+        bobj = [q for g, q in nodeh.ptr_cases(m.cell('ret', 0)) if q.obj is not None]
+        mp = None
+        for name_, o_ in out.mem.o.items():
+            if o_ is top:
+                mp = Ptr(name_, tb + bfo[1])
+        mterms, mlen = nc.index_terms(out.mem, mp, 'mask')
+        vw = top.cells[tb + bfo[3]][0]
+        obls.append(('one mask entry per group', z3.BoolVal(mlen != outlength)))
+        for g in range(min(outlength, mlen)):
+            empty = not any(p == g for p in parents)
+            valid = (z3.Extract(7, 0, mterms[g]) != 0) == (z3.Extract(0, 0, vw) == 1 if vw.size() >= 1 else z3.BoolVal(False))
+            obls.append(('group %d is None exactly when it is empty' % g, valid == z3.BoolVal(empty)))
+        top, tb = obj(top.cells[tb + bfo[2]][0], 'content of the option')
+    if 'NumpyArray' not in cls_of(top, tb):
+        obls.append(('the values are a NumpyArray', z3.BoolVal(True)))
+        return mdischarge(m, 'NumpyArray<%s>::reduce_next %s' % (dtype, red), obls, [], replay=None)
+    dp = top.cells[tb + fo[1]][0]
+    buf, boff = obj(dp, 'result buffer')
+    want_elem = ('f', obits) if okind == 'f' else ('i', obits)
+    if tuple(buf.kind) != want_elem:
+        obls.append(('the result buffer has the documented output type (%s %d bits), not %s' % (okind, obits, tuple(buf.kind)), z3.BoolVal(True)))
+        return mdischarge(m, 'NumpyArray<%s>::reduce_next %s' % (dtype, red), obls, [], replay=None)
+    obls.append(('the answer is labelled with the documented dtype', top.cells[tb + fo[9]][0] != NPCODE[(okind, obits)]))
+    obls.append(('the answer is labelled with the item size of that dtype', top.cells[tb + fo[7]][0] != obits // 8))
+    res = [z3.Select(buf.arr, z3.simplify(boff + g)) for g in range(outlength)]
+    adj = (lambda i: BV(i) - sv[parents[i]] + (shv[i] if shifted else BV(0))) if red in ('argmin', 'argmax') else None
+    obls += _group_obligations(red, dtype, xs, parents, outlength, res, pos_adjust=adj)
+
+    def replay(model, ent):
+        ev = lambda t: model.eval(t, model_completion=True)
+        raw = [ev(z3.fpToIEEEBV(x) if kind == 'f' else x).as_long() for x in xs]
+        svv = [ev(v).as_signed_long() for v in sv]
+        shv_ = [ev(v).as_signed_long() for v in shv] if shifted else []
+        got = native_reduce_next(red, dtype, raw, list(parents), outlength, svv, shv_, mask, keepdims)
+        exp = py_expected(red, dtype, raw, list(parents), outlength)
+        if red in ('argmin', 'argmax'):
+            exp = [e if e < 0 else e - svv[parents[e]] + (shv_[e] if shifted else 0) for e in exp]
+        payload = dict(reducer=red, dtype=dtype, data_bits=raw, parents=list(parents), starts=svv, shifts=shv_, mask=mask, keepdims=keepdims, native=got, expected=exp)
+        bad = got is None or got.get('dtype') != NPCODE[(okind, obits)] or got.get('kept') != int(keepdims) or got.get('masked') != int(mask)
+        if not bad:
+            for g in range(outlength):
+                empty = not any(p_ == g for p_ in parents)
+                if mask and (got['none'][g] != int(empty)):
+                    bad = True
+                if not (mask and empty) and not _py_ok(red, dtype, raw, list(parents), g, got['values'][g], exp[g]):
+                    bad = True
+        if bad:
+            return True, '%s of %s data %s (raw bits), parents %s, starts %s, shifts %s, mask_identity=%s, keepdims=%s: native library gives %s, the group-wise definition %s' % (
+                red, dtype, raw, list(parents), svv, shv_, mask, keepdims, got, exp), payload
+        return False, 'native library agrees (%s)' % (got,), payload
+    return mdischarge(m, 'NumpyArray<%s>::reduce_next %s parents=%s mask=%s keepdims=%s%s' % (dtype, red, list(parents), mask, keepdims, ' shifts' if shifted else ''), obls, [], replay=replay, timeout_ms=120000,
+                      prefer=([z3.ULE(x, 5) for x in xs] if kind != 'f' else []) + [z3.And(v >= 0, v <= 3) for v in sv] + [v <= 3 for v in shv],
+                      extra=dict(bounds='%d items (any values; floats: no NaN), parents %s concrete (case split), starts%s symbolic' % (n, list(parents), ' and shifts' if shifted else '')))
+
+
+_REDUCE_DRIVER = r"""
+#include <cstdio>
+#include <cstdlib>
+#include <cstring>
+#include <string>
+#include <vector>
+#include <memory>
+#include "awkward/Reducer.h"
+#include "awkward/Index.h"
+#include "awkward/array/NumpyArray.h"
+#include "awkward/array/RegularArray.h"
+#include "awkward/array/ByteMaskedArray.h"
+using namespace awkward;
+int main(int argc, char** argv) {
+  // argv: red dtypecode itemsize fmt outlength mask keepdims n parents... raw... starts(outlength)... nshifts shifts...
+  std::string red = argv[1]; util::dtype dt = (util::dtype)atoi(argv[2]); ssize_t isz = atoi(argv[3]); std::string fmt = argv[4];
+  int64_t outlength = atoll(argv[5]); bool mask = atoi(argv[6]) != 0, keep = atoi(argv[7]) != 0; int n = atoi(argv[8]);
+  int a = 9;
+  Index64 parents(n); for (int i = 0; i < n; i++) parents.data()[i] = atoll(argv[a++]);
+  std::shared_ptr<void> ptr(malloc(n == 0 ? 8 : (size_t)(n * isz)), free);
+  for (int i = 0; i < n; i++) { unsigned long long raw = strtoull(argv[a++], nullptr, 10); memcpy((char*)ptr.get() + i * isz, &raw, (size_t)isz); }
+  Index64 starts(outlength); for (int64_t i = 0; i < outlength; i++) starts.data()[i] = atoll(argv[a++]);
+  int ns = atoi(argv[a++]); Index64 shifts(ns); for (int i = 0; i < ns; i++) shifts.data()[i] = atoll(argv[a++]);
+  std::vector<ssize_t> shape({(ssize_t)n}), strides({isz});
+  NumpyArray arr(Identities::none(), util::Parameters(), ptr, shape, strides, 0, isz, fmt, dt, kernel::lib::cpu);
+  std::shared_ptr<Reducer> r;
+  if (red == "count") r = std::make_shared<ReducerCount>(); else if (red == "count_nonzero") r = std::make_shared<ReducerCountNonzero>();
+  else if (red == "sum") r = std::make_shared<ReducerSum>(); else if (red == "prod") r = std::make_shared<ReducerProd>();
+  else if (red == "any") r = std::make_shared<ReducerAny>(); else if (red == "all") r = std::make_shared<ReducerAll>();
+  else if (red == "min") r = std::make_shared<ReducerMin>(); else if (red == "max") r = std::make_shared<ReducerMax>();
+  else if (red == "argmin") r = std::make_shared<ReducerArgmin>(); else r = std::make_shared<ReducerArgmax>();
+  try {
+    ContentPtr out = arr.reduce_next(*r, 1, starts, shifts, parents, outlength, mask, keep);
+    int kept = 0, masked = 0;
+    if (RegularArray* ra = dynamic_cast<RegularArray*>(out.get())) { kept = 1; out = ra->content(); }
+    std::vector<int> none((size_t)outlength, 0);
+    if (ByteMaskedArray* bm = dynamic_cast<ByteMaskedArray*>(out.get())) { masked = 1; Index8 mk = bm->bytemask(); for (int64_t g = 0; g < outlength && g < mk.length(); g++) none[(size_t)g] = mk.getitem_at_nowrap(g) != 0; out = bm->content(); }
+    NumpyArray* na = dynamic_cast<NumpyArray*>(out.get());
+    if (na == nullptr) { printf("{\"error\": \"not a NumpyArray\"}\n"); return 0; }
+    printf("{\"kept\": %d, \"masked\": %d, \"dtype\": %d, \"none\": [", kept, masked, (int)na->dtype());
+    for (int64_t g = 0; g < outlength; g++) printf("%s%d", g ? ", " : "", none[(size_t)g]);
+    printf("], \"values\": [");
+    for (int64_t g = 0; g < outlength; g++) { unsigned long long raw = 0; memcpy(&raw, (char*)na->data() + g * na->itemsize(), (size_t)na->itemsize()); printf("%s%llu", g ? ", " : "", raw); }
+    printf("]}\n");
+  } catch (std::exception& e) { printf("{\"error\": \"raised\"}\n"); }
+  fflush(stdout); _Exit(0);
+}
+"""
+
+
+def native_reduce_next(red, dtype, raw, parents, outlength, starts, shifts, mask, keepdims):
+    import json
+    from .mnode import NP_DTYPES
+    code, kind_, isz, fmt, sgn = NP_DTYPES[dtype]
+    exe = fullnative.link_driver(_REDUCE_DRIVER, 'reducenext')
+    env = dict(os.environ, ASAN_OPTIONS='detect_leaks=0:exitcode=86:allocator_may_return_null=1', UBSAN_OPTIONS='halt_on_error=1:exitcode=87')
+    argv = [red, str(code), str(isz), fmt, str(outlength), str(int(mask)), str(int(keepdims)), str(len(parents))] + [str(p) for p in parents] + [str(v) for v in raw] + \
+        [str(v) for v in starts] + [str(len(shifts))] + [str(v) for v in shifts]
+    r = subprocess.run([exe] + argv, capture_output=True, text=True, timeout=30, env=env, errors='replace')
+    try:
+        d = json.loads((r.stdout.strip().splitlines() or [''])[-1])
+    except ValueError:
+        return None
+    return None if 'error' in d or r.returncode != 0 else d
+
+
+def jobs_numpy_reduce(tier):
+    js = []
+    P = ((0, 0, 2), 3)
+    combos = [('sum', 'int64'), ('sum', 'int8'), ('sum', 'float32'), ('max', 'float32'), ('min', 'uint16'), ('argmax', 'int32'), ('argmin', 'float64'), ('count', 'bool'), ('any', 'int64'), ('all', 'uint8'), ('prod', 'uint32'), ('count_nonzero', 'float64')]
+    if tier != 'quick':
+        combos = [(r, d) for r in REDUCERS for d in ('bool', 'int8', 'uint16', 'int32', 'int64', 'uint64', 'float32', 'float64')]
+    for k, (r, d) in enumerate(combos):
+        for mask in ((False, True) if tier != 'quick' else ((k % 2 == 0),)):
+            for keep in ((False, True) if tier != 'quick' else ((k % 3 == 0),)):
+                js.append((h_numpy_reduce, (r, d, P[0], P[1], mask, keep, False), 900))
+        if r in ('argmin', 'argmax'):
+            js.append((h_numpy_reduce, (r, d, P[0], P[1], True, False, True), 900))
+    return js
